@@ -46,7 +46,7 @@ def evStr : Ev → Option String
 def strLe (a b : String) : Bool := a ≤ b
 
 def evsStr (evs : List Ev) : String :=
-  joinWith "," ((evs.filterMap evStr).mergeSort strLe)
+  joinWith "," ((evs.filterMap evStr).eraseDups.mergeSort strLe)
 
 /-- first binding wins: drop shadowed duplicates before printing -/
 def dedup (fs : Files) : Files :=
